@@ -58,6 +58,12 @@ pub fn gen(rng: &mut Rng, tier: &str, dist: &mut Dist) -> Vec<String> {
     let n = if tier == "thorough" { 10000 } else { 1200 };
     let max_len = if tier == "thorough" { 8000 } else { 1500 };
     let mut cmds = Vec::new();
+    // blocks beyond 2^24 bytes: the sizes in the index need a 4- and 5-byte multibyte integer
+    for n in [(1usize << 24) + 5, (1 << 24) - 1] {
+        cmds.push(format!("xz_big {} ref2crate", n));
+        cmds.push(format!("xz_big {} crate2ref", n));
+        dist.bump("xz_big");
+    }
     for i in 0..n {
         let sizes = gen_sizes(rng);
         match i % 5 {
